@@ -406,7 +406,8 @@ func (bs *BinarySpray) ReportFailure(bp BundleDescriptor, sender cla.Convergence
 		}).Warn("No metadata")
 		return
 	}
-	binarySprayBlock.SetCopies(metadata.remainingCopies + binarySprayBlock.RemainingCopies())
+	// The copies announced to the peer were never handed over, take them back.
+	metadata.remainingCopies = metadata.remainingCopies + binarySprayBlock.RemainingCopies()
 
 	for i := 0; i < len(metadata.sent); i++ {
 		if metadata.sent[i] == sender.GetPeerEndpointID() {
